@@ -18,22 +18,22 @@ CHECKS = {
         technique="TLA+ spec + TLC; state-graph edge cover replayed on the real latch (spec -> code conformance)",
         engine="E1-tlc + E2-walk", ref="DESIGN.md 6 C11"),
     "C03": dict(
-        text="The init barrier is part of the composite specification spec/Rapid.tla (init program counter, four init latches, registration service, agent automata). Scenario scripts drive the real stack through seeded arrival orders of register/next calls of 0..3 external and 0..2 internal extensions, the runtime and the first invocation, with directory entries, a held-back party and a late registration; TLC decides for every recorded trace whether it is a behaviour of the specification (trace validation with internal steps, strict-timer rule).",
+        text="The init barrier is part of the composite specification spec/Rapid.tla (init program counter, four init latches, registration service, agent automata). Scenario scripts drive the real stack through seeded arrival orders of register/next calls of 0..3 external and 0..2 internal extensions, the runtime and the first invocation, with directory entries, dot-named extension files, registrations arriving while the launch loop is still running, a held-back party and a late registration; TLC decides for every recorded trace whether it is a behaviour of the specification (trace validation with internal steps, strict-timer rule).",
         note=SCEN_NOTE, technique="TLA+ spec + TLC trace validation of recorded full-stack traces (code -> spec conformance)",
         engine="E4-scenarios + E3-trace", ref="DESIGN.md 6 C03"),
     "C04": dict(
-        text="The invoke barrier and the INVOKE fan-out are actions of spec/Rapid.tla (Dispatch, AwaitResponse, AwaitRuntimeBack, AwaitAgentsBack over the three invoke latches). Scenarios cover subscription sets over 0..3 external and 0..1 internal extensions, 2-3 consecutive invocations, permuted return orders and a held-back party; every recorded trace is validated by TLC against the specification, so an event at a non-subscriber, a missing event, a wrong request id or completion before the last party polled is an unexplainable trace.",
+        text="The invoke barrier and the INVOKE fan-out are actions of spec/Rapid.tla (Dispatch, AwaitResponse, AwaitRuntimeBack, AwaitAgentsBack over the three invoke latches). Scenarios cover subscription sets over 0..3 external and 0..1 internal extensions, 2-3 consecutive invocations, permuted return orders, a held-back party and seven forms of the caller's trace header (which must reach the extensions verbatim); every recorded trace is validated by TLC against the specification, so an event at a non-subscriber, a missing event, a wrong request id or completion before the last party polled is an unexplainable trace.",
         note=SCEN_NOTE, technique="TLA+ spec + TLC trace validation of recorded full-stack traces (code -> spec conformance)",
         engine="E4-scenarios + E3-trace", ref="DESIGN.md 6 C04"),
 }
 
 CHECKS.update({
     "C10": dict(
-        text="The reservation (invokeCtx, reply stream, reservation context, completion channel) and the goroutines of Server.Invoke (main/timer, release, FastInvoke, inner) are modelled per invocation in spec/Rapid.tla. Scenarios place a second and a third caller at every phase of the first invocation (during init, after dispatch, after the response while an extension finishes, during the timeout reset, after completion) and continue with a sequential invocation; TLC validates each recorded trace: the extra caller must be refused with the reservation error and nothing else may change. A crash of the emulator process is reported directly.",
+        text="The reservation (invokeCtx, reply stream, reservation context, completion channel) and the goroutines of Server.Invoke (main/timer, release, FastInvoke, inner) are modelled per invocation in spec/Rapid.tla. Scenarios place a second and a third caller at every phase of the first invocation (during init, after dispatch, after the response while an extension finishes, during the timeout reset, after completion) (also with an internal extension as the only INVOKE subscriber, still busy after the runtime's answer) and continue with a sequential invocation; TLC validates each recorded trace: the extra caller must be refused with the reservation error and nothing else may change. A crash of the emulator process is reported directly.",
         note=SCEN_NOTE, technique="TLA+ spec + TLC trace validation of recorded full-stack traces; process crash detection",
         engine="E4-scenarios + E3-trace", ref="DESIGN.md 6 C10"),
     "C12": dict(
-        text="The runtime automaton (ten states), the ManagedThread suspend/release flag, the request-id middleware, the reply-stream checks and the rendering states are the API handler section of spec/Rapid.tla. Seeded random call sequences over {next, response/error with current, stale and unknown ids, init/error, snapshot routes, unknown routes, wrong methods} interleaved with invocations (with and without an extension that keeps invocations open) are executed against the real Runtime API; every answer (status, error type, invocation delivered, payload class) must be the one the specification computes in the state reached (TLC trace validation).",
+        text="The runtime automaton (ten states), the ManagedThread suspend/release flag, the request-id middleware, the reply-stream checks and the rendering states are the API handler section of spec/Rapid.tla. Seeded random call sequences over {next, response/error with current, stale, unknown and case-variant ids, init/error, and requests answered from the route table of the specification (unknown routes, wrong methods, snapshot routes outside snapshot mode, the Logs/Telemetry stub routes)} interleaved with invocations (with and without an extension that keeps invocations open) are executed against the real Runtime API; every answer (status, error type, invocation delivered, payload class) must be the one the specification computes in the state reached (TLC trace validation). A snapshot-mode family covers the restore states of the automaton (restore poll, hook, an invocation arriving while the hook is still running).",
         note=SCEN_NOTE, technique="TLA+ spec + TLC trace validation of recorded full-stack traces (code -> spec conformance)",
         engine="E4-scenarios + E3-trace", ref="DESIGN.md 6 C12"),
     "C13": dict(
@@ -44,7 +44,7 @@ CHECKS.update({
 
 CHECKS.update({
     "C01": dict(
-        text="Payload, request id, reply stream and outcome of every invocation are state of spec/Rapid.tla (per-invocation records, rendering service, SendBody). Scenarios run all histories of length <= 2 over {ok, error, oversize, timeout, runtime exit} plus random longer ones with empty / 1-byte / binary / large payloads and client contexts; the harness projection maps received bytes to sha-256 classes and checks ARN, deadline (= arrival + timeout) and client context; TLC validates each trace: the runtime must receive the payload of the invocation in flight, the caller the body posted for its request id, and exactly one InvokeRet per InvokeCall within the time bound.",
+        text="Payload, request id, reply stream and outcome of every invocation are state of spec/Rapid.tla (per-invocation records, rendering service, SendBody). Scenarios run all histories of length <= 2 over {ok, error, oversize, timeout, runtime exit} plus random longer ones with empty / 1-byte / binary / large payloads and client contexts; the harness projection maps received bytes to sha-256 classes and checks ARN, deadline (= arrival + timeout) and client context; TLC validates each trace: the runtime must receive the payload of the invocation in flight, the caller the body posted for its request id, and exactly one InvokeRet per InvokeCall within the time bound. Through the front end: a caller whose connection stalls while the next caller is served must receive its own bytes; the START / END / REPORT lines printed per request are part of the front-end trace.",
         note=SCEN_NOTE + " Byte equality is decided by the projection, not by TLA+.", technique="TLA+ spec + TLC trace validation of recorded full-stack traces; byte-class projection",
         engine="E4-scenarios + E3-trace", ref="DESIGN.md 6 C01"),
     "C06": dict(
@@ -81,7 +81,7 @@ CHECKS.update({
 
 CHECKS.update({
     "C02": dict(
-        text="Request-id middleware, runtime automaton, reply-stream checks (SendBody) and the addressing of platform-generated errors are modelled in spec/Rapid.tla. Scenarios enumerate histories {ok, error, timeout, crash} x placement of a stale / duplicate / unknown response or error {before the next invocation arrives, before the runtime polls, after delivery, after the response, after completion} x submission kind; TLC validates each trace: the submission is refused with 400/403, the caller of the following invocation receives exactly the body posted for its own id, the automaton continues as if the refused call had not happened.",
+        text="Request-id middleware, runtime automaton, reply-stream checks (SendBody) and the addressing of platform-generated errors are modelled in spec/Rapid.tla. Scenarios enumerate histories {ok, error, timeout, crash} x placement of a stale / duplicate / unknown response or error {before the next invocation arrives, before the runtime polls, after delivery, after the response, after completion} x submission kind; TLC validates each trace: the submission is refused with 400/403, the caller of the following invocation receives exactly the body posted for its own id, the automaton continues as if the refused call had not happened. A further family submits a response / error for the current id after the platform's own error answer (extension fault), during the failure reset.",
         note=SCEN_NOTE, technique="TLA+ spec + TLC trace validation of recorded full-stack traces (placement enumeration)",
         engine="E4-scenarios + E3-trace", ref="DESIGN.md 6 C02"),
     "C07": dict(
@@ -105,14 +105,14 @@ CHECKS.update({
 
 CHECKS.update({
     "C18": dict(
-        text="Snapshot mode is part of spec/Rapid.tla: restore routes of the runtime automaton (RestoreReady / Restoring / RestoreError), handleRestore (credential update, restore renderer, release of a parked runtime, wait with the hook deadline, first-fatal override, RestoreRuntimeDone event), the credentials endpoint keyed by the per-instance token. Scenarios enumerate the orders of {restore request, restore poll, hook completion, restore/error, init/error, hook timeout, runtime exit}, a runtime that never enters the restore poll, repeated restores, credentials with right / wrong / no token, and plain mode; TLC validates the stamped traces (outcome class, timeout not before the hook timeout and at most 500 ms after it, credentials label of the latest restore, no credentials in the Exec environment).",
+        text="Snapshot mode is part of spec/Rapid.tla: restore routes of the runtime automaton (RestoreReady / Restoring / RestoreError), handleRestore (credential update, restore renderer, release of a parked runtime, wait with the hook deadline, first-fatal override, RestoreRuntimeDone event), the credentials endpoint keyed by the per-instance token. Scenarios enumerate the orders of {restore request, restore poll, hook completion, restore/error, init/error, hook timeout, runtime exit}, a runtime that never enters the restore poll, repeated restores, credentials with right / wrong / no token, and plain mode; TLC validates the stamped traces (outcome class, timeout not before the hook timeout and at most 500 ms after it, credentials label of the latest restore although each restore's credentials expire earlier than the ones held, no credentials in the Exec environment; a hook that outlives its deadline while an invocation arrives).",
         note=SCEN_NOTE, technique="TLA+ spec + TLC validation of stamped full-stack traces in init-caching mode",
         engine="E4-scenarios + E3-trace", ref="DESIGN.md 6 C18"),
 })
 
 CHECKS.update({
     "C19": dict(
-        text="spec/Supervisor.tla states the supervisor contract (Exec, Terminate = SIGTERM to the group without waiting, Kill = SIGKILL to the group returning once the process is gone, exactly one truthful termination event per process); TLC checks AtMostOneEvent, EventOnlyAfterDeath, DeadStaysDead and, under fairness of event delivery, EveryDeathReported for two processes of every behaviour. Binding: black-box traces of the real supervisor.LocalSupervisor running seeded random concurrent programs of 2-4 real /bin/sh children {exit 0, exit 3, self-signal, trap TERM, ignore TERM, fork children, fork + ignore TERM} with Terminate / Kill (future and past deadlines, unknown names, repeats) are validated by TLC against spec/Trace_Supervisor.tla, with ground truth for 'gone' from pid files and /proc. The same trace specification validates the harness's fake supervisor, i.e. the contract every full-stack check assumes.",
+        text="spec/Supervisor.tla states the supervisor contract (Exec, Terminate = SIGTERM to the group without waiting, Kill = SIGKILL to the group returning once the process is gone, exactly one truthful termination event per process); TLC checks AtMostOneEvent, EventOnlyAfterDeath, DeadStaysDead and, under fairness of event delivery, EveryDeathReported for two processes of every behaviour. Binding: black-box traces of the real supervisor.LocalSupervisor running seeded random concurrent programs of 2-4 real /bin/sh children {exit 0, exit 3, self-signal, trap TERM, ignore TERM, fork children, fork + ignore TERM, exit 0 leaving a child that holds the output pipe}, output through pipes into non-file writers (one of them slow), with Terminate / Kill (future and past deadlines, unknown names, repeats) are validated by TLC against spec/Trace_Supervisor.tla, with ground truth for 'gone' from pid files and /proc. The same trace specification validates the harness's fake supervisor, i.e. the contract every full-stack check assumes.",
         note="Trusted: TLC, /bin/sh signal semantics, /proc. Schedules are those the random programs produce.",
         technique="TLA+ contract spec + TLC; black-box trace validation of the real supervisor with real child processes",
         engine="E1-tlc + E3-trace", ref="DESIGN.md 6 C19"),
@@ -120,7 +120,7 @@ CHECKS.update({
 
 CHECKS.update({
     "C17": dict(
-        text="spec/DirectInvoke.tla models ReceiveDirectInvoke over its four package variables and header classes; the state graph is finite, so TLC checks HistoryIndependent (a request's result equals its result on a fresh emulator) for all request sequences, and must exhibit the violation for the parser as found (vacuity guard). Every edge of the graph (65 088) is replayed on the real function (result, parsed mode, package variables, status, Error-Type, trailer announcement). Copy: TLC enumerates size x limit x chunking x read-failure cases with their classification; each runs through SendDirectInvokeResponse in buffered and streaming mode with a stamping writer (trailer class, forwarded length, byte-for-byte prefix); spec/TokenBucket.tla gives RateBound and termination for every chunking, and the streaming runs are checked against burst + rate x t on their write time stamps; a reset during a throttled copy must end it Truncated.",
+        text="spec/DirectInvoke.tla models ReceiveDirectInvoke over its four package variables and header classes; the state graph is finite, so TLC checks HistoryIndependent (a request's result equals its result on a fresh emulator) for all request sequences, and must exhibit the violation for the parser as found (vacuity guard). Every edge of the graph (65 088) is replayed on the real function (result, parsed mode, package variables, status, Error-Type, trailer announcement). Copy: TLC enumerates size x limit x chunking x read-failure cases with their classification; each runs through SendDirectInvokeResponse in buffered and streaming mode with a stamping writer (trailer class, forwarded length, byte-for-byte prefix); spec/TokenBucket.tla gives RateBound and termination for every chunking, and the streaming runs are checked against burst + rate x t on their write time stamps; a reset during a throttled copy, and during a copy blocked reading a runtime that stalled at an enumerated position (stallAt dimension of the copy cases; connection closed through the CancellableRequest), must end it Truncated with everything read so far forwarded.",
         note="Trusted: TLC, httptest recorder / stamping writer. One representative value per header class; rate bound with one refill quantum of slack; resets injected at one copy point per case.",
         technique="TLA+ transcription + TLC; state-graph edge cover replayed on the real parser; TLC-enumerated copy cases; stamped rate check",
         engine="E1-tlc + E2-walk/cases", ref="DESIGN.md 6 C17"),
@@ -136,12 +136,12 @@ MC = {
     "C01": ["OkHasBody", "StreamOwnerIsReserver", "NoGhostInvoke"], "C02": ["StreamOwnerIsReserver", "OkHasBody"],
     "C03": ["RuntimeAfterRegistrations", "NoEventBeforeAllNext"], "C04": ["DoneOnlyAfterAll", "EventsOnlyToSubscribers"],
     "C05": ["NoGhostInvoke", "NoCrash"], "C07": ["NoCrash"], "C08": ["ResetIsFresh"],
-    "C09": ["EventsOnlyToSubscribers", "NoCrash"],
+    "C09": ["EventsOnlyToSubscribers", "FailResetShutdownOnlyToSubscribers", "NoCrash"],
     "C10": ["NoCrash", "StreamOwnerIsReserver", "OkHasBody", "NoGhostInvoke (two-caller configuration included)"],
     "C18": ["RestoreOkOnlyAfterHook", "NoCrash", "RuntimeAfterRegistrations (snapshot-mode configuration included)"],
 }
-FORCED = {"C02": "stale-in-flight", "C03": "clear-vs-invoke, register-vs-close", "C04": "dispatch-held",
-          "C05": "ghost-invoke, clear-vs-invoke, stale-shutdown", "C08": "watch-late-cancel, clear-vs-invoke",
+FORCED = {"C02": "stale-error-in-flight, stale-response-in-flight", "C03": "clear-vs-invoke, register-vs-close", "C04": "dispatch-held",
+          "C05": "ghost-invoke, clear-vs-invoke, stale-shutdown", "C08": "watch-late-cancel, clear-vs-invoke, stale-failure-record",
           "C10": "double-reset, late-release"}
 SIMULATED = ("C07", "C12", "C13")
 RAPID = ["C01", "C02", "C03", "C04", "C05", "C06", "C07", "C08", "C09", "C10", "C12", "C13", "C14", "C15", "C18"]
